@@ -401,7 +401,7 @@ static int lblake2b(lua_State *L) {
   /* so default hash is a 64-byte string) */
   size_t mln;
   size_t keyln = 0;
-  int digln;
+  lua_Integer digln;
   const char *m, *key;
   char digest[64];
 
@@ -413,10 +413,10 @@ static int lblake2b(lua_State *L) {
   if(digln < 1 || digln > 64)
   luaL_error(L, "bad digest size");
   blake2b(
-  (uint8_t*)digest, digln,
+  (uint8_t*)digest, (size_t)digln,
   (const uint8_t*)key, keyln,
   (const uint8_t*)m, mln);
-  lua_pushlstring(L, digest, digln);
+  lua_pushlstring(L, digest, (size_t)digln);
   return 1;
 }
 
